@@ -202,8 +202,14 @@ def bfs(uni, depth, rep, deadline_t, label=None, max_states=None):
     """returns stats dict"""
     label = label or uni.name
     ex = Exec(exe('fast'))
-    uni.sparse_drop = probe_sparse_drop(ex)
-    m, problems, key0, _ = replay(ex, uni, [], None)
+    try:
+        uni.sparse_drop = probe_sparse_drop(ex)
+        m, problems, key0, _ = replay(ex, uni, [], None)
+        ex.run(['reset'])          # (audit mode: judges the set-up script)
+    except Crash as c:
+        rep.violation({'universe': label, 'op': 'setup', 'kind': 'crash'}, {'problems': ['%s\n%s' % (c, c.stderr[-3000:])], 'script': c.script[-80:]})
+        ex.kill()
+        return {'states': 0, 'transitions': 0, 'depth_completed': 0, 'exhaustive': False, 'rcs': set(), 'samples': [], 'frontier_left': 0}
     ex.stop()
     if problems:
         rep.violation({'universe': label, 'op': 'setup', 'kind': problems[0][0]}, {'problems': problems})
